@@ -305,7 +305,7 @@ def expansion_oracle(run, chk, select=lambda cs: True):
     import subprocess
     import common
     import langcorr
-    idx = [i for i, cs in enumerate(run.cases) if select(cs) and run.outcomes[i].get("prog_term") and not cs.get("ext") and not run.outcomes[i].get("qasm2")]
+    idx = [i for i, cs in enumerate(run.cases) if select(cs) and run.outcomes[i].get("prog_term") and not cs.get("ext")]
     tally = {"inside-the-judgement-and-equal": 0, "outside-the-judgement": 0, "not-evaluated": 0}
     d = common.run_dir()
     shard, procs = 100, []
@@ -318,11 +318,13 @@ def expansion_oracle(run, chk, select=lambda cs: True):
             outt = o.get("stmts_term") if o.get("unroll") == "ok" and o.get("stmts_term") else None
             counts = "(%d, %d, %d)%%Z" % (o.get("nq") if isinstance(o.get("nq"), int) else -1, o.get("nc") if isinstance(o.get("nc"), int) else -1,
                                              o.get("depth") if isinstance(o.get("depth"), int) else -1)
-            terms.append("(%s, %s, %s, %s)" % (o["prog_term"], "Some %s" % outt if outt else "None", counts, "true" if o.get("validate") == "ok" else "false"))
+            terms.append("(%s, %s, %s, %s, %s)" % (o["prog_term"], "Some %s" % outt if outt else "None", counts, "true" if o.get("validate") == "ok" else "false",
+                                                   "true" if o.get("qasm2") else "false"))
         with open(f, "w") as fh:
             fh.write(langcorr.HEADER.replace("Unroll Corr", "Unroll Depth DepthModel FixProofs LoopProofs BroadcastProofs GateDefProofs"))
-            fh.write("Definition code (c : list stmt * option (list stmt) * (Z * Z * Z) * bool) : nat :=\n"
-                     "  let '(p, out, (nq, nc, dp), validated) := c in\n"
+            fh.write("Definition code (c : list stmt * option (list stmt) * (Z * Z * Z) * bool * bool) : nat :=\n"
+                     "  let '(p, out, (nq, nc, dp), validated, version2) := c in\n"
+                     "  if (version2 && negb (forallb qasm2_allowed p))%bool then 0 else\n"
                      "  match gjudge p, out with\n"
                      "  | None, _ => 0\n"
                      "  | Some (q, evs), Some o => if negb (list_eqb stmt_eqb q o) then 2 else if negb validated then 5\n"
